@@ -85,15 +85,16 @@ def coq_scan_forbidden():
     return bad
 
 
-def coq_make(timeout=3000):
-    """Full .vo build of the development (incremental), serialised by a lock."""
+def coq_make(timeout=3000, target=None):
+    """Full .vo build of the development (incremental, keeps going past a failing file), serialised by a lock.
+    With `target` (e.g. "Properties/C05.vo") only that file and what it depends on."""
     lock = open(os.path.join(COQ, ".build.lock"), "w")
     fcntl.flock(lock, fcntl.LOCK_EX)
     try:
         if not os.path.exists(os.path.join(COQ, "Makefile")) or \
                 os.path.getmtime(os.path.join(COQ, "Makefile")) < os.path.getmtime(os.path.join(COQ, "_CoqProject")):
             sh("coq_makefile -f _CoqProject -o Makefile", cwd=COQ)
-        rc, out = sh(f"timeout {timeout} make -j{os.cpu_count() or 8}", cwd=COQ, timeout=timeout + 30)
+        rc, out = sh(f"timeout {timeout} make -k -j{os.cpu_count() or 8}" + (f" {target}" if target else ""), cwd=COQ, timeout=timeout + 30)
         return rc == 0, out
     finally:
         fcntl.flock(lock, fcntl.LOCK_UN)
@@ -121,6 +122,13 @@ def proof_stage(pid, extra_files=()):
     if bad:
         res["failures"].append({"kind": "forbidden-construct", "where": bad})
     ok, out = coq_make()
+    if not ok:
+        # a file outside this property's dependency cone may be what fails (e.g. the regenerated import graph of C26 while
+        # another property is checked): this property's own obligations are decided by ITS cone only
+        ok_all, out_all = ok, out
+        ok, out = coq_make(target=f"Properties/{pid}.vo")
+        if ok:
+            res["unrelated_build_failure"] = out_all[-600:]
     prop = os.path.join(COQ, "Properties", f"{pid}.v")
     src = open(prop).read()
     thms = re.findall(r"^\s*(?:Theorem|Lemma|Corollary|Example)\s+(\w+)", src, flags=re.M)
